@@ -587,7 +587,11 @@ impl<K: KeyT, V: ValT> MapRunner<K, V> {
         // clones appear with fresh ids
         let mut held = std::collections::BTreeSet::new();
         for m in [self.a.as_ref().unwrap(), self.b.as_ref().unwrap()] {
-            for (_, e) in contents(m) {
+            // every bucket (an inconsistent Eq can store one key twice)
+            let d = m.verif_dump();
+            let n = if d.is_singleton { 0 } else { d.bucket_mask + 1 };
+            let all: Vec<(u64, u64)> = (0..n).filter_map(|i| m.verif_bucket(i).map(|(k, v)| (k.id(), v.id()))).collect();
+            for e in all {
                 for id in [format!("k{}", e.0), format!("v{}", e.1)] {
                     if !held.insert(id.clone()) {
                         return Some(format!("object {} is held twice", id));
